@@ -442,6 +442,8 @@ def main():
         json.dump(res, open(out, "w"))
         return
     mu_rows(res, mu)
+    ctypes.c_int.in_dll(rebound.clibrebound, "reb_verif_state").value = 0      # hook events are only needed for the mass-parameter rows
+    open(TRACE, "w").close()
     valid_rows(res, valid)
     switch_runs(res, hists, tier, seed)
     two_body(res, tier)
